@@ -192,6 +192,12 @@ func genC17(t *Tape) *lifeScenario {
 				op.Work = []time.Duration{0, 0, time.Millisecond, 10 * time.Millisecond, 60 * time.Millisecond, 200 * time.Millisecond}[t.Choose(6)]
 				op.Panic = t.Chance(1, 12)
 				op.CtxAware = t.Choose(2) == 1
+				if t.Chance(1, 14) {
+					// a handler that takes seconds (a slow downstream bus) and does not look at its context: whatever waits
+					// for it, a cancelled Serve does not
+					op.Work = time.Duration(1200+t.Choose(1800)) * time.Millisecond
+					op.CtxAware, op.Panic = false, false
+				}
 				cl.Ops = append(cl.Ops, op)
 			case 1:
 				cl.Ops = append(cl.Ops, lifeOp{Kind: "idle", Gap: time.Duration(1+t.Choose(100)) * time.Millisecond})
@@ -254,6 +260,9 @@ func genC17(t *Tape) *lifeScenario {
 	sc.OnServeWork = []time.Duration{0, 0, 2 * time.Millisecond, 30 * time.Millisecond}[t.Choose(4)]
 	sc.CallbackWork = []time.Duration{0, 0, time.Millisecond, 8 * time.Millisecond}[t.Choose(4)]
 	sc.ReadTimeout = []time.Duration{0, 2 * time.Millisecond, 20 * time.Millisecond}[t.Choose(3)]
+	if t.Chance(1, 10) {
+		sc.ReadTimeout = 3 * time.Second // a server whose reads wait long for the next bytes
+	}
 	sc.AddrCaller = t.Chance(1, 4)
 	// Half of the runs aim the controller at an event instead of a time: shutdown/cancel right after the n-th handler
 	// start, handler end (reply pending), accept or server write begin - windows that have zero simulated duration.
@@ -276,7 +285,7 @@ func genC17(t *Tape) *lifeScenario {
 	if sc.Action == "cancel" && sc.Second == "" && t.Choose(3) == 0 {
 		sc.SecondServe = []string{"cancel", "shutdown"}[t.Choose(2)]
 	}
-	if t.Chance(1, 30000) || forceScenario == "epoch" {
+	if t.Chance(1, 10000) || forceScenario == "epoch" {
 		// a very long session: one connection is answered a little more than 65536 times (a poller that has been
 		// connected for a day); graceful shutdown is asked for while the handler works on its next request
 		fast, ok1 := genValidSrvReq(t, 3, 1, 7)
@@ -284,7 +293,7 @@ func genC17(t *Tape) *lifeScenario {
 		if ok1 && ok2 {
 			sc.Epoch, sc.ManyClients, sc.LongSession = true, false, false
 			cl := lifeClient{}
-			n := 65534 + t.Choose(5)
+			n := []int{65535, 65536, 65537, 65540}[t.Choose(4)]
 			for i := 0; i < n; i++ {
 				cl.Ops = append(cl.Ops, lifeOp{Kind: "req", Frame: fast.Frame, TID: fast.TID})
 			}
@@ -844,6 +853,12 @@ func runC17(rc *RunCtx) {
 		"shutdown_ctx": sc.ShutdownCtx.String(), "clients": describeLifeClients(sc), "reject_every": sc.RejectEvery, "server_read_timeout": sc.ReadTimeout.String()}
 	cb := fmt.Sprintf("cb=%04b", sc.Callbacks)
 	rc.Probe(fmt.Sprintf("%s|%s", cb, sc.Action))
+	if sc.Epoch {
+		rc.Probe("one_connection_answered_more_than_65000_times")
+	}
+	if sc.ManyClients {
+		rc.Probe(fmt.Sprintf("many_clients|%d", bucket(len(sc.Clients))))
+	}
 	{
 		nclose, nhold, npanic, ncut, nslow := 0, 0, 0, 0, 0
 		for _, c := range sc.Clients {
